@@ -294,6 +294,46 @@ class Gen:
         return "\n".join(out) + "\n"
 
 
+def gap_scenario(r, sid):
+    """C07, readiness survives the gap: a target source that is ready is disabled - by an earlier callback of the same batch
+    (actor = a ping source), or between dispatches - possibly left disabled over some dispatches, and enabled again; what was
+    ready must be delivered after enable(). All four source kinds as target, both readiness orders."""
+    pre, scripts = ["C newping 1 10", "C insert 1 ping 10"], []
+    kind = r.choice(["timer", "timer", "comp", "chan", "ping"])
+    if kind == "timer":
+        pre.append("C insert 2 timer %d" % r.choice([0, 0, 2]))
+        ready = []
+    elif kind == "comp":
+        pre.append("C insert 2 comp 0 1 12 1 %d" % r.choice([0, 0, 1]))
+        ready = ["C fdwrite 12 1"]
+    elif kind == "chan":
+        pre += ["C newchan 1 13 -1", "C insert 2 chan 1 13"]
+        ready = ["C send 1 7"]
+    else:
+        pre += ["C newping 2 14", "C insert 2 ping 14"]
+        ready = ["C ping 2"]
+    how = r.choice(["actor", "actor", "outside"])
+    body = []
+    if how == "actor":
+        scripts += ["S 1 0 0 1", "A disable 2"]
+        body += (ready + ["C ping 1"]) if r.random() < 0.5 else (["C ping 1"] + ready)
+        body.append("D %d" % r.choice([1, 2]))
+    else:
+        body += ready + ["C disable 2", "D 1"]
+    for _ in range(r.randint(0, 3)):
+        body.append(r.choice(["C ping 1", "D 2", "D 2", "T", "E"] + ready))
+    body += ["C enable 2", "D 3", "T", "E", "D 4", "T"]
+    return "=== %s\n" % sid + "\n".join(scripts + pre + body) + "\n"
+
+
 def gen_many(seed, n, profile=None, prefix="g"):
     rnd = random.Random(seed)
-    return [Gen(random.Random(rnd.getrandbits(64)), profile).scenario("%s%d" % (prefix, i)) for i in range(n)]
+    gap = (profile or {}).get("gap_frac", 0.0)
+    out = []
+    for i in range(n):
+        r = random.Random(rnd.getrandbits(64))
+        if gap and r.random() < gap:
+            out.append(gap_scenario(r, "%s%d" % (prefix, i)))
+        else:
+            out.append(Gen(r, profile).scenario("%s%d" % (prefix, i)))
+    return out
